@@ -723,7 +723,20 @@ def str_consts(ctx: Ctx, f: FunctionInfo, e: Optional[ast.AST], at: Optional[int
         top = f
         while top.parent is not None:
             top = top.parent
-        for table in ((top.cls.consts if top.cls is not None else {}), f.module.consts):
+        tables = [(top.cls.consts if top.cls is not None else {}), f.module.consts]
+        if at is not None:
+            # the node belongs to a helper analysed in place: ITS class / module name the constant
+            g_ = ctx.cfg(f)
+            for fr in reversed(g_.nodes[at].frames):
+                if fr.kind == "inline" and id(fr.node) in g_.inlined_calls:
+                    t_ = g_.inlined_calls[id(fr.node)]
+                    tables += [(t_.cls.consts if t_.cls is not None else {}), t_.module.consts]
+        imp = f.module.imports.get(nm) if isinstance(x, ast.Name) else None
+        if imp and "." in imp and not any(nm in tb for tb in tables):
+            om = ctx.prog.modules.get(imp.rsplit(".", 1)[0])
+            if om is not None and imp.rsplit(".", 1)[1] in om.consts:
+                tables.append({nm: om.consts[imp.rsplit(".", 1)[1]]})  # `from .sibling import TABLE`
+        for table in tables:
             v = table.get(nm)
             if v is not None and isinstance(v, (ast.Tuple, ast.List, ast.Set, ast.Constant, ast.Call)):
                 out |= {c.value for c in ast.walk(v) if isinstance(c, ast.Constant) and isinstance(c.value, str)}
@@ -1412,6 +1425,17 @@ def concrete_eval(ctx: Ctx, f: FunctionInfo, e: Optional[ast.AST], env: Dict[str
             if unknown_key:
                 return UNKNOWN
             return ev(e.args[1]) if len(e.args) > 1 else None
+    if isinstance(e, ast.Call) and isinstance(e.func, ast.Attribute) and (e.func.attr + "()") in env and not e.keywords:
+        # scenario hook for a storage / OS answer: `<x>.list_files(..)` -> the scripted listing, `<x>.get_modified_time(p)` ->
+        # the scripted table's entry for the evaluated argument
+        hv = env[e.func.attr + "()"]
+        if isinstance(hv, dict):
+            k_ = ev(e.args[0]) if e.args else UNKNOWN
+            try:
+                return hv.get(k_, UNKNOWN) if k_ is not UNKNOWN else UNKNOWN
+            except TypeError:
+                return UNKNOWN
+        return hv
     if isinstance(e, ast.Call) and (dotted(e.func) or "") in ("os.getenv", "os.environ.get") and "os.getenv()" in env and e.args:
         v = env["os.getenv()"]  # scenario: what the environment variable holds (None = unset)
         if v is None:
@@ -1523,7 +1547,7 @@ def concrete_eval(ctx: Ctx, f: FunctionInfo, e: Optional[ast.AST], env: Dict[str
             v = ev(fn.value)
             return getattr(v, fn.attr)() if isinstance(v, str) else UNKNOWN
         if isinstance(fn, ast.Attribute) and fn.attr in ("replace", "rsplit", "split", "rpartition", "partition", "lstrip", "rstrip",
-                                                          "startswith", "endswith", "isdigit", "isascii", "isdecimal") and not e.keywords:
+                                                          "startswith", "endswith", "isdigit", "isascii", "isdecimal", "removeprefix", "removesuffix") and not e.keywords:
             v = ev(fn.value)
             args = [ev(a) for a in e.args]
             if isinstance(v, str) and all(isinstance(a, (str, int, tuple)) and not isinstance(a, PartialTuple) for a in args):
@@ -1566,6 +1590,26 @@ def concrete_eval(ctx: Ctx, f: FunctionInfo, e: Optional[ast.AST], env: Dict[str
             if isinstance(v, str):
                 import posixpath
                 return posixpath.basename(v) if fn.attr == "basename" else posixpath.dirname(v)
+            return UNKNOWN
+        if isinstance(fn, ast.Attribute) and (dotted(fn) or "") in ("os.path.isabs", "posixpath.isabs", "os.path.normpath", "posixpath.normpath") \
+                and len(e.args) == 1 and not e.keywords:
+            v = ev(e.args[0])
+            if isinstance(v, str):
+                import posixpath
+                return getattr(posixpath, fn.attr)(v)  # purely lexical (POSIX spelling)
+            return UNKNOWN
+        if isinstance(fn, ast.Attribute) and (dotted(fn) or "") in ("os.path.relpath", "posixpath.relpath") and len(e.args) == 2 and not e.keywords:
+            a_, b_ = ev(e.args[0]), ev(e.args[1])
+            if isinstance(a_, str) and isinstance(b_, str) and a_.startswith("/") and b_.startswith("/"):
+                import posixpath
+                return posixpath.relpath(a_, b_)  # both absolute: lexical, the working directory is not consulted
+            return UNKNOWN
+        if isinstance(fn, ast.Attribute) and (dotted(fn) or "") in ("os.path.join", "posixpath.join") and e.args and not e.keywords \
+                and not any(isinstance(a_, ast.Starred) for a_ in e.args):
+            vs = [ev(a_) for a_ in e.args]
+            if all(isinstance(v_, str) for v_ in vs):
+                import posixpath
+                return posixpath.join(*vs)  # type: ignore[arg-type]
             return UNKNOWN
         # a small helper of the package (`self._key_root()`, `_join(a, b)`): evaluated under the same scenario - its
         # parameters are the evaluated arguments, `self.<attr>` entries of the scenario carry over for a method on self;
@@ -2477,3 +2521,33 @@ def value_signature(ctx: Ctx, f: FunctionInfo, e: Optional[ast.AST], at: int, de
 def same_value(ctx: Ctx, f: FunctionInfo, e1: Optional[ast.AST], at1: int, e2: Optional[ast.AST], at2: int) -> bool:
     a, b = value_signature(ctx, f, e1, at1), value_signature(ctx, f, e2, at2)
     return len(a) == 1 and a == b and "?" not in a
+
+
+def is_canonical_base_call(ctx: Ctx, f: FunctionInfo, x: ast.AST) -> bool:
+    """Is `x` a FRESH computation of the local backend's canonical root - found by role, not by name: a call of a parameterless
+    method whose every return is os.path.realpath(<self>.base_path), or os.path.realpath(<obj>.base_path) itself (the helper
+    analysed in place)?  A value read from an attribute stored earlier is not (it is as old as the store)."""
+    if not isinstance(x, ast.Call):
+        return False
+    def realpath_of_base(e: Optional[ast.AST]) -> bool:
+        return isinstance(e, ast.Call) and (dotted(e.func) or "") in ("os.path.realpath",) and len(e.args) == 1 and not e.keywords \
+            and isinstance(e.args[0], ast.Attribute) and e.args[0].attr == "base_path"
+    if realpath_of_base(x):
+        return True
+    try:
+        cal = ctx.prog.resolve_call(x, f)
+    except Exception:
+        return False
+    if cal is None or cal.kind != "func" or not cal.funcs:
+        return False
+    for t in cal.funcs:
+        if isinstance(t.node, ast.Lambda) or [p_ for p_ in t.params if p_.name not in ("self", "cls")]:
+            return False
+        rets = effective_returns(ctx, t)
+        if not rets:
+            return False
+        for r, v in rets:
+            srcs = resolve_value(ctx, t, v, r.id)
+            if not srcs or not all(realpath_of_base(src) for src, _at in srcs):
+                return False
+    return True
